@@ -340,6 +340,12 @@ func (e *Env) evalBin(x *Expr) SVal {
 }
 
 func (e *Env) evalSel(x *Expr) SVal {
+	// rangeint.iter: the hidden counter of a `for range n` loop (iterations started so far, 0-based)
+	if x.Args[0].Op == "id" && x.Args[0].Name == "rangeint" && x.Name == "iter" && e.local != nil {
+		if v, ok := e.local("rangeint.iter"); ok {
+			return v
+		}
+	}
 	// package-qualified identifier?
 	if x.Args[0].Op == "id" {
 		if _, isVar := e.vars[x.Args[0].Name]; !isVar {
@@ -739,6 +745,16 @@ func (e *Env) evalCall(x *Expr) SVal {
 		fn := cbresName(sorts, rs)
 		t.declareFun(fn, append([]string{"Int"}, sorts...), rs)
 		return SVal{S: app(fn, terms...), T: RT, Sort: rs}
+	case "conv": // conv(T, x): the struct value x as a value of the Go type T (same underlying struct type)
+		T := e.typeArg(x.Args[0])
+		v := e.eval(x.Args[1])
+		if v.T == nil {
+			e.errf(x, "conv of a non-Go value")
+		}
+		if c, ok := t.convStruct(v.S, v.T, T); ok {
+			return SVal{S: c, T: T, Sort: t.sortOf(T)}
+		}
+		return SVal{S: v.S, T: T, Sort: t.sortOf(T)}
 	case "bitor":
 		return SVal{S: app("bit.or", e.evalInt(x.Args[0]), e.evalInt(x.Args[1])), Sort: "Int"}
 	case "pow2":
